@@ -56,23 +56,23 @@ defjvp(anp.subtract, lambda g, ans, x, y: broadcast(g, ans), lambda g, ans, x, y
 defjvp(anp.divide, "same", lambda g, ans, x, y: -g * x / y**2)
 defjvp(
     anp.maximum,
-    lambda g, ans, x, y: g * balanced_eq(x, ans, y),
-    lambda g, ans, x, y: g * balanced_eq(y, ans, x),
+    lambda g, ans, x, y: match_complex(ans, g * balanced_eq(x, ans, y)),
+    lambda g, ans, x, y: match_complex(ans, g * balanced_eq(y, ans, x)),
 )
 defjvp(
     anp.minimum,
-    lambda g, ans, x, y: g * balanced_eq(x, ans, y),
-    lambda g, ans, x, y: g * balanced_eq(y, ans, x),
+    lambda g, ans, x, y: match_complex(ans, g * balanced_eq(x, ans, y)),
+    lambda g, ans, x, y: match_complex(ans, g * balanced_eq(y, ans, x)),
 )
 defjvp(
     anp.fmax,
-    lambda g, ans, x, y: g * balanced_eq(x, ans, y),
-    lambda g, ans, x, y: g * balanced_eq(y, ans, x),
+    lambda g, ans, x, y: match_complex(ans, g * balanced_eq(x, ans, y)),
+    lambda g, ans, x, y: match_complex(ans, g * balanced_eq(y, ans, x)),
 )
 defjvp(
     anp.fmin,
-    lambda g, ans, x, y: g * balanced_eq(x, ans, y),
-    lambda g, ans, x, y: g * balanced_eq(y, ans, x),
+    lambda g, ans, x, y: match_complex(ans, g * balanced_eq(x, ans, y)),
+    lambda g, ans, x, y: match_complex(ans, g * balanced_eq(y, ans, x)),
 )
 defjvp(anp.logaddexp, lambda g, ans, x, y: g * anp.exp(x - ans), lambda g, ans, x, y: g * anp.exp(y - ans))
 defjvp(anp.logaddexp2, lambda g, ans, x, y: g * 2 ** (x - ans), lambda g, ans, x, y: g * 2 ** (y - ans))
